@@ -333,7 +333,10 @@ theorem flip_pos (d : Dims α) (p : Particle α) (dz : α) (h : dimOf d p.tomo_i
 theorem flip_pos_none (d : Dims α) (p : Particle α) (h : dimOf d p.tomo_id = none) : pos (flipP d p) = pos p := by
   unfold flipP; rw [h]; rfl
 
-/-- applying `flip_handedness` twice restores the particle list entry -/
+/-- applying `flip_handedness` twice restores the particle list entry — an identity of EXACT arithmetic (any commutative
+ring: ℚ, ℝ): it uses `(dz + 1) − ((dz + 1) − z) = z`, which binary64 subtraction does not satisfy for every z (the float
+result can differ in the last bit), so at `Float` the restored z is validated within tolerance by the correspondence run
+(`flip-twice-restores-the-list`), not proved -/
 theorem flip_flip (d : Dims α) (p : Particle α) : flipP d (flipP d p) = p := by
   have ht : (flipP d p).tomo_id = p.tomo_id := by unfold flipP; split <;> rfl
   cases h : dimOf d p.tomo_id with
@@ -621,15 +624,20 @@ theorem zxz_angles_exist {α : Type} [_root_.Field α] [LinearOrder α] [IsStric
 theorem euler_angles_exist (m : M3 ℝ) (h : IsRot m) : ∃ e : ℝ × ℝ × ℝ, eulerMat realSvc e = m :=
   ⟨realSvc.euler m, realSvc_eulerOK m h⟩
 
-/-- all service hypotheses used anywhere in this file hold for `realSvc` -/
+/-- all service hypotheses used anywhere in this file hold for `realSvc` — i.e. the contract (`CsOdd`, cos² + sin² = 1, `EulerOK`
+for every proper rotation, rounding within 1/2) is SATISFIABLE over ℝ. `realSvc.euler = eulerR` (`Lemmas/C05_Euler`: `sqrt` and
+`Complex.arg`) is a different function from the extractor the driver executes (`Drv/C05.eulerF`: `Float.atan2` on binary64) and from
+scipy's `as_euler`; that THOSE meet `EulerOK` is not proved anywhere: it is measured on every correspondence run (`resid`, probes) -/
 theorem realSvc_meets_all :
     CsOdd realSvc ∧ (∀ a, (realSvc.cs a).1 * (realSvc.cs a).1 + (realSvc.cs a).2 * (realSvc.cs a).2 = 1) ∧
     (∀ m : M3 ℝ, IsRot m → EulerOK realSvc m) ∧ (∀ v : ℝ, |v - ((realSvc.rnd v : Int) : ℝ)| ≤ 1 / 2) :=
   ⟨realSvc_csOdd, realSvc_unit, realSvc_eulerOK, rndR_close⟩
 
-/-- **any history on any particle list, over ℝ, without any assumption on the services**: if the
-`apply_rotation` arguments are proper rotations and every `flip_handedness` call covers the list's
-tomograms, the poses after the history are exactly what the statement gives -/
+/-- **any history on any particle list, over ℝ, for the ideal services `realSvc`** (true cos/sin, the Euler extraction `eulerR`,
+exact rounding — no hypothesis on them is left): if the `apply_rotation` arguments are proper rotations and every
+`flip_handedness` call covers the list's tomograms, the poses after the history are exactly what the statement gives.
+This shows that the service contract can be met and what follows from it; it is NOT a statement about the `Float` extractor
+`Drv/C05.eulerF` the driver runs, nor about scipy (those are validated numerically, see `realSvc_meets_all`) -/
 theorem absPose_runOps_real (ops : List (Op ℝ)) (hq : ∀ q, Op.rotate q ∈ ops → IsRot q) (m : Motl ℝ)
     (hcov : ∀ p ∈ m, ∀ op ∈ ops, covers op p.tomo_id = true) :
     m.map (fun p => specRun ops (absPose realSvc p)) = (runOps realSvc ops m).map (fun p => some (absPose realSvc p)) :=
@@ -712,7 +720,7 @@ of them by its mirror image `conjOp` (shift s ↦ shift (Mz s), rotate Q ↦ rot
 section history
 variable {α : Type} [CommRing α] [DecidableEq α] (S : Svc α)
 
-/-- **flip ∘ flip = id inside any history** (whole 20-field records, no hypothesis): two successive `flip_handedness` calls with
+/-- **flip ∘ flip = id inside any history** (whole 20-field records, no hypothesis beyond exact arithmetic — a commutative ring; see the caveat at `flip_flip` for `Float`): two successive `flip_handedness` calls with
 the same dimensions can be deleted wherever they stand -/
 theorem flip_flip_in_history (a b : List (Op α)) (d : Dims α) (m : Motl α) :
     runOps S (a ++ Op.flip d :: Op.flip d :: b) m = runOps S (a ++ b) m :=
@@ -783,7 +791,9 @@ theorem spec_only_flips (ops : List (Op α)) (P : Pose α) (dz : α) (hall : ∀
 
 end history
 
-/-- over ℝ the history law needs no assumption on the numeric services: proper rotations as `apply_rotation` arguments suffice -/
+/-- over ℝ, for the ideal services `realSvc`, the history law needs no further assumption: proper rotations as `apply_rotation`
+arguments suffice (as for `absPose_runOps_real`: a satisfiability instance of the contract, not a theorem about the executed
+`Float` extractor `eulerF` or scipy) -/
 theorem history_flip_parity_real (ops : List (Op ℝ)) (hq : ∀ q, Op.rotate q ∈ ops → IsRot q) (p : Particle ℝ) (dz : ℝ)
     (hflip : ∀ d', Op.flip d' ∈ ops → specDim d' p.tomo_id = some dz) (hns : ∀ op ∈ ops, isScale op = false)
     (d : Dims ℝ) (hd : specDim d p.tomo_id = some dz) :
